@@ -258,7 +258,7 @@ func (fv *FuncVC) havocAllHeaps(st *State) {
 	st.heaps = keep
 	newAlloc := fv.getHeap(st, "alloc")
 	fv.addFact(st, "(not (select "+newAlloc+" nil))")
-	fv.addFact(st, fmt.Sprintf("(forall ((r Ref)) (! (=> (select %s r) (select %s r)) :pattern ((select %s r))))", oldAlloc, newAlloc, oldAlloc))
+	fv.addFact(st, fmt.Sprintf("(forall ((r Ref)) (! (=> (select %s r) (select %s r)) :pattern ((select %s r)) :pattern ((select %s r))))", oldAlloc, newAlloc, oldAlloc, newAlloc))
 }
 
 func (fv *FuncVC) havocHeap(st *State, name string) {
@@ -268,7 +268,7 @@ func (fv *FuncVC) havocHeap(st *State, name string) {
 		n := fv.th.freshConst(sanitize(name), fv.heapSort[name])
 		st.heaps[name] = n
 		fv.addFact(st, "(not (select "+n+" nil))")
-		fv.addFact(st, fmt.Sprintf("(forall ((r Ref)) (! (=> (select %s r) (select %s r)) :pattern ((select %s r))))", oldAlloc, n, oldAlloc))
+		fv.addFact(st, fmt.Sprintf("(forall ((r Ref)) (! (=> (select %s r) (select %s r)) :pattern ((select %s r)) :pattern ((select %s r))))", oldAlloc, n, oldAlloc, n))
 		return
 	}
 	s, ok := fv.heapSort[name]
